@@ -86,6 +86,7 @@ static Register r4("c07.n2s3k3", "C07", "pairs of TA(2,{a:0,b:0,f:1,g:2},<=3 per
 static Register r5("c07.n3s3pt4", "C07", "pairs of TA(3,{a:0,f:1,g:2}), total <=4 rules", [](Env& e) { body(e, "c07.n3s3pt4", 3, dom::Sigma3p(), 4, 4); });
 static Register r6("c07.n2s2k4", "C07", "pairs of TA(2,{a:0,b:0,g:2},<=4 per side)", [](Env& e) { body(e, "c07.n2s2k4", 2, dom::Sigma2(), 4, 8); });
 
+static Register o1("c07.ov.n2k3", "C07", "pairs of TA(2,{a:0,a:2,b:0},<=3 per side, total <=5): one symbol name with two arities", [](Env& e) { body(e, "c07.ov.n2k3", 2, dom::SigmaOv(), 3, 5); });
 static Register t1("c07.trim.n3s2.a3b4", "C07", "pairs of TRIMMED automata of TA(3,{a:0,b:0,g:2}): A <=3 rules x B <=4 rules", [](Env& e) { bodyTrim(e, "c07.trim.n3s2.a3b4", 3, dom::Sigma2(), 3, 4); });
 static Register t2("c07.trim.n3s2.a3b3", "C07", "pairs of TRIMMED automata of TA(3,{a:0,b:0,g:2}): A <=3 rules x B <=3 rules", [](Env& e) { bodyTrim(e, "c07.trim.n3s2.a3b3", 3, dom::Sigma2(), 3, 3); });
 static Register t3("c07.trim.n2s2.a4b4", "C07", "pairs of TRIMMED automata of TA(2,{a:0,b:0,g:2},<=4 rules)", [](Env& e) { bodyTrim(e, "c07.trim.n2s2.a4b4", 2, dom::Sigma2(), 4, 4); });
